@@ -2,6 +2,7 @@
 from __future__ import annotations
 
 import concurrent.futures as cf
+from ..paths import REPO
 import multiprocessing as mp
 import os
 import re
@@ -44,7 +45,7 @@ def mass_number(name):
 
 def binding_energies():
     out = {}
-    for l in open("/repo/naunet/chemistrydata/rate12_binding_energy.dat", encoding="latin1"):
+    for l in open(REPO + "/naunet/chemistrydata/rate12_binding_energy.dat", encoding="latin1"):
         if l.startswith("#") or not l.strip():
             continue
         p = l.split()
@@ -315,13 +316,13 @@ def _analyse(name, fmt, model, mk, user, tier, res):
             if len(res["samples"]) < 2:
                 res["samples"].append({"obligation": nm, "emitted": str(z3.simplify(kk))[:200], "verdict": "unsat"})
         elif rr == "sat":
-            _replay(p, tdir, res, s.model(), i, ref, key, nm, r, NEQ, y)
+            _replay(p, tdir, res, s.model(), i, ref, key, nm, r, NEQ, y, eb)
         else:
             res["unknown"].append((nm, "solver " + rr))
     res["solver_s"] += time.time() - t0
 
 
-def _replay(p, tdir, res, model, i, ref, key, nm, r, NEQ, ysyms):
+def _replay(p, tdir, res, model, i, ref, key, nm, r, NEQ, ysyms, eb=None):
     import random
 
     rnd = random.Random(i)
@@ -334,6 +335,19 @@ def _replay(p, tdir, res, model, i, ref, key, nm, r, NEQ, ysyms):
             env.update({"Tgas": rnd.uniform(8, 200), "Tdust": rnd.choice([8.0, 10.0, 12.0, 15.0, 25.0, 40.0]), "nH": 1e4, "gdens": 7.6e-9, "zeta": 1.3e-17 * rnd.uniform(0.5, 3), "zeta_cr": 2.6e-17, "eb_uvd": 1e4, "eb_crd": 1e4, "eb_h2d": 1e4})
             if attempt % 2:
                 env.update({"G0": rnd.uniform(0.5, 3.0), "Av": rnd.uniform(0.1, 5.0)})
+            # desorption thresholds: the side of each guard the solver's model chose first, then every
+            # threshold independently below / at / above the species' binding energy
+            if eb:
+                ebf = float(Fraction(eb))
+                for lim in ("eb_uvd", "eb_crd", "eb_h2d"):
+                    if attempt < 2:
+                        try:
+                            side = z3.is_true(model.eval(P(lim) >= R(eb), model_completion=True))
+                        except z3.Z3Exception:
+                            side = True
+                        env[lim] = ebf * (2.0 if side else 0.5) if ebf > 0 else (1e4 if side else -1.0)
+                    else:
+                        env[lim] = rnd.choice([0.5 * ebf, ebf, 2.0 * ebf]) if ebf > 0 else 1e4
             yv = [rnd.uniform(1e-3, 1.0) for _ in range(NEQ)]
             out = nat.eval(yv, data=env)
             res["replays"] += 1
